@@ -3,22 +3,32 @@
 op "approx":    DisciplineJacApprox(d, mode, step).compute_approx_jac(output_names, input_names, x_indices)
 op "linearize": d.set_jacobian_approximation(mode, step); d.linearize() (all Jacobians or differentiated subsets)
 op "check":     d.check_jacobian(derr_approx=mode, step, threshold, input_names, output_names, indices=...)
-                with (a) the exact derivative printed by the specification as analytic Jacobian (verdict
-                `vexact` computed by the specification from the closed-form truncation error), (b) the
-                specification's approximation as analytic Jacobian (verdict `vself`); entries outside the
+                (entry "disc") or DisciplineJacApprox(d, mode, step).check_jacobian(...) (entry "approx") with
+                the analytic Jacobian printed by the specification (field ek: the exact derivative, the
+                specification's approximation, wrong in a stored entry, wrong by a missing entry, wrong by an
+                extra entry), in the representation of the instance (field rep: dense, CSR, CSC, COO); the
+                verdict is the one the specification computed over every selected entry; entries outside the
                 selected components carry garbage and must not influence the verdict.
+
+Every op is also run with default inputs that differ from the linearisation point (field dk: other values,
+arrays of other sizes): the point is the discipline's current input data.  op "linearize" also after a
+history of mode settings (prev/phow then meth/how; how "attr" = the `linearization_mode` attribute, the
+library's default step: the result is then judged by OrderBound at that step).
 """
 from __future__ import annotations
 
 import numpy as np
 
+from ..core import MachineryError
 from .c16 import PolyFn, S, close, exc_class, spec_points, subset_class
 
 MODE = {"fd": "finite_differences", "cd": "centered_differences", "cs": "complex_step"}
 GARBAGE = 7.0
 
 
-def make_discipline(fun, il, ol, X):
+def make_discipline(fun, il, ol, dfl):
+    """The polynomial harness discipline; `dfl`: its default inputs per input variable (scale S) - the same
+    point as the linearisation point, another point, or arrays of other sizes (instance field dk)."""
     from gemseo.core.discipline import Discipline
 
     n = fun["n"]
@@ -29,7 +39,7 @@ def make_discipline(fun, il, ol, X):
             self.io.input_grammar.update_from_names([v["nm"] for v in il])
             self.io.output_grammar.update_from_names([v["nm"] for v in ol])
             self.io.input_grammar.defaults = {
-                v["nm"]: np.array([X[c - 1] / S for c in v["cs"]]) for v in il}
+                v["nm"]: np.array([t / S for t in dfl[k]]) for k, v in enumerate(il)}
             self.fn = PolyFn(fun)
             self.analytic = {}
 
@@ -45,6 +55,15 @@ def make_discipline(fun, il, ol, X):
             self.jac = {o: {i: m.copy() for i, m in row.items()} for o, row in self.analytic.items()}
 
     return PolyDisc()
+
+
+def to_rep(m, rep):
+    """The analytic block in the representation of the instance (zeros are not stored by the sparse ones)."""
+    if rep == "dense":
+        return m
+    from scipy import sparse
+
+    return {"csr": sparse.csr_array, "csc": sparse.csc_array, "coo": sparse.coo_array}[rep](m)
 
 
 def blocks(I, nested):
@@ -99,13 +118,66 @@ def index_arg(sel0, size, variant):
     return list(sel0)
 
 
+def default_step():
+    """The step the library uses when an approximation mode is set without a step."""
+    import inspect
+
+    from gemseo.core.discipline import Discipline
+
+    return float(inspect.signature(Discipline.set_jacobian_approximation).parameters["jax_approx_step"].default)
+
+
+def order_bound_ok(ck, sig, case, I, got, exact, coef, h):
+    """OrderBound of the specification evaluated at the library's default step h (not a dyadic number: the
+    specification hands over the exact derivative and the symbolic coefficients (2nd derivative / 2, 3rd / 6)
+    of the order term; round-off allowance: 1e-6 relative for the real differences, 1e-12 for complex step)."""
+    meth = I["meth"]
+    for ko, o in enumerate(I["orq"]):
+        on = I["ol"][o - 1]["nm"]
+        for ki, i in enumerate(I["ir"]):
+            inn = I["il"][i - 1]["nm"]
+            if on not in got or inn not in got[on]:
+                ck.violation("Shape", dict(sig, symptom="names"), dict(case, missing=[on, inn]))
+                return False
+            g = np.asarray(got[on][inn])
+            ex = exact[on][inn]
+            if g.shape != ex.shape:
+                ck.violation("Shape", sig, dict(case, block=[on, inn], impl_shape=list(g.shape),
+                                                spec_shape=list(ex.shape)))
+                return False
+            for a, row in enumerate(coef[ko][ki]):
+                for b, cf in enumerate(row):
+                    d2h, d3 = abs(cf["d2h"]) / S, abs(cf["d3"])
+                    if meth == "fd":
+                        bnd = d2h * h + d3 * h * h + 1e-6 * (1 + abs(ex[a, b]))
+                    elif meth == "cd":
+                        bnd = d3 * h * h + 1e-6 * (1 + abs(ex[a, b]))
+                    else:
+                        dd = h if cf["xc"] == 0 else abs(cf["xc"]) / S * h
+                        bnd = d3 * dd * dd + 1e-12 * (1 + abs(ex[a, b]))
+                    err = abs(g[a, b] - ex[a, b])
+                    if not (np.isfinite(g[a, b]) and err <= bnd):
+                        ck.violation("OrderBound", sig,
+                                     dict(case, block=[on, inn], entry=[a, b], impl=float(g[a, b]),
+                                          exact=float(ex[a, b]), error=float(err), bound=float(bnd), step=h))
+                        return False
+    return True
+
+
+BASE = {"dk": "same", "sf": "real", "how": "method", "prev": "none", "phow": "none", "rep": "dense", "ek": "exact",
+        "entry": "disc"}
+
+
 def run(ck, funs, dcases, rng):
     from gemseo.utils.derivatives.derivatives_approx import DisciplineJacApprox
 
     counts = {"approx": 0, "linearize": 0, "check": 0}
+    variants: dict = {}
+    verdicts: dict = {}
     par_runs = {"procs": 0, "threads": 0}
     n_lin = 0
     par_stride = 16 if ck.thorough else 6
+    h_default = default_step()
     for k, (I, out, pts) in enumerate(dcases):
         op, meth = I["op"], I["meth"]
         fun = funs[I["fid"]]
@@ -117,20 +189,35 @@ def run(ck, funs, dcases, rng):
         xi0 = [p - 1 for p in I["xi"]]
         hflat = np.array([I["hc"][c - 1] for c in cols], dtype=float) / S
         step = float(hflat[0]) if I["sk"] == "scalar" else hflat
+        if I["sf"] == "imag":
+            step = 1j * step
+        # "base": the linearisation point is also the default point: it need not be passed
+        base = I["dk"] == "same"
         sig = {"level": "disc", "op": op, "method": meth, "subset": subset_class(xi0, nc, I["dflt"] and op != "check"),
-               "step": I["sk"]}
+               "step": I["sk"], "defaults": I["dk"], "step_form": I["sf"]}
+        if op == "linearize":
+            sig.update(how=I["how"], prev=I["prev"] != "none")
+        if op == "check":
+            sig.update(rep=I["rep"], entry=I["entry"])
         case = {"instance": I, "input_names": ins, "output_names": outs, "x_indices": xi0,
-                "step": np.asarray(step).tolist(), "scale": S * S}
+                "step": str(step) if I["sf"] == "imag" else np.asarray(step).tolist(), "scale": S * S}
         want = blocks(I, out["approx"])
         x0 = tuple((v / S, 0.0) for v in I["X"])
+        # the linearisation point: the discipline's current input data
+        xdata = {v["nm"]: np.array([I["X"][c - 1] / S for c in v["cs"]]) for v in il}
+        at = () if base else (xdata,)
         counts[op] += 1
+        vk = f"{op}:" + ",".join(f"{f_}={I[f_]}" for f_ in BASE if I[f_] != BASE[f_] and f_ not in ("prev", "phow"))
+        variants[vk] = variants.get(vk, 0) + 1
+        if I["prev"] != "none":
+            variants[f"{op}:after_another_mode"] = variants.get(f"{op}:after_another_mode", 0) + 1
         ck.traces += 1
         if k % 397 == 0:
             ck.sample({"instance": I, "expected": out})
         try:
             if op == "approx":
-                d = make_discipline(fun, il, ol, I["X"])
-                d.execute()
+                d = make_discipline(fun, il, ol, I["dfl"])
+                d.execute(*at)
                 d.fn.log.clear()
                 ap = DisciplineJacApprox(d, MODE[meth], step=step)
                 got = ap.compute_approx_jac(outs, ins, [] if I["dflt"] else xi0)
@@ -143,22 +230,31 @@ def run(ck, funs, dcases, rng):
             elif op == "linearize":
                 n_lin += 1
                 # serial for every instance; process / thread back-ends for a fixed stride of them
-                pars = ["serial"] + (["procs"] if n_lin % par_stride == 0 else []) \
-                    + (["threads"] if n_lin % par_stride == 1 else [])
+                pars = ["serial"]
+                if I["how"] == "method":
+                    pars += (["procs"] if n_lin % par_stride == 0 else []) + (["threads"] if n_lin % par_stride == 1 else [])
                 for par in pars:
-                    d = make_discipline(fun, il, ol, I["X"])
+                    d = make_discipline(fun, il, ol, I["dfl"])
                     psig = sig if par == "serial" else dict(sig, par=par, several_tasks=True)
                     try:
-                        d.set_jacobian_approximation(
-                            MODE[meth], jax_approx_step=step, jac_approx_n_processes=1 if par == "serial" else 2,
-                            jac_approx_use_threading=par == "threads")
+                        # the history of mode settings: the mode in force is the last one set
+                        if I["phow"] == "attr":
+                            d.linearization_mode = MODE[I["prev"]]
+                        elif I["phow"] == "method":
+                            d.set_jacobian_approximation(MODE[I["prev"]], jax_approx_step=2.0 ** -3)
+                        if I["how"] == "attr":
+                            d.linearization_mode = MODE[meth]
+                        else:
+                            d.set_jacobian_approximation(
+                                MODE[meth], jax_approx_step=step, jac_approx_n_processes=1 if par == "serial" else 2,
+                                jac_approx_use_threading=par == "threads")
                         everything = len(ins) == len(il) and len(outs) == len(ol)
                         if everything and k % 2 == 0:
-                            got = d.linearize(compute_all_jacobians=True)
+                            got = d.linearize(*at, compute_all_jacobians=True)
                         else:
                             d.add_differentiated_inputs(ins)
                             d.add_differentiated_outputs(outs)
-                            got = d.linearize()
+                            got = d.linearize(*at)
                     except Exception as ex:  # noqa: BLE001
                         ck.violation("Runs", dict(psig, exception=type(ex).__name__, msg=exc_class(ex)),
                                      dict(case, error=repr(ex)))
@@ -166,45 +262,75 @@ def run(ck, funs, dcases, rng):
                     if par != "serial":
                         ck.traces += 1
                         par_runs[par] += 1
-                    if not compare_blocks(ck, psig, case, meth, got, want, True):
+                    if I["how"] == "attr":
+                        if not order_bound_ok(ck, psig, case, I, got, blocks(I, out["exact"]), out["coef"], h_default):
+                            break
+                    elif not compare_blocks(ck, psig, case, meth, got, want, True):
                         break
             else:
-                exact = blocks(I, out["exact"])
+                given = blocks(I, out["analytic"])
                 indices = {}
-                for kk, i in enumerate(I["ir"]):
-                    a = index_arg([c - 1 for c in I["si"][kk]], len(il[i - 1]["cs"]), (k + kk) % 3)
-                    if a is not None:
-                        indices[il[i - 1]["nm"]] = a
-                for kk, o in enumerate(I["orq"]):
-                    a = index_arg([c - 1 for c in I["so"][kk]], len(ol[o - 1]["cs"]), (k + kk + 1) % 3)
-                    if a is not None:
-                        indices[ol[o - 1]["nm"]] = a
+                if I["rep"] != "coo":  # a COO matrix cannot be subscripted: without `indices` (full selections) only
+                    for kk, i in enumerate(I["ir"]):
+                        a = index_arg([c - 1 for c in I["si"][kk]], len(il[i - 1]["cs"]), (k + kk) % 3)
+                        if a is not None:
+                            indices[il[i - 1]["nm"]] = a
+                    for kk, o in enumerate(I["orq"]):
+                        a = index_arg([c - 1 for c in I["so"][kk]], len(ol[o - 1]["cs"]), (k + kk + 1) % 3)
+                        if a is not None:
+                            indices[ol[o - 1]["nm"]] = a
                 case["indices"] = {n_: (a if not isinstance(a, slice) and a is not Ellipsis else repr(a))
                                    for n_, a in indices.items()}
-                for which, base, verdict in (("exact", exact, out["vexact"]), ("self", want, out["vself"])):
-                    d = make_discipline(fun, il, ol, I["X"])
-                    an = {v["nm"]: {w["nm"]: np.full((len(v["cs"]), len(w["cs"])), GARBAGE) for w in il} for v in ol}
-                    for kk, o in enumerate(I["orq"]):
-                        on = ol[o - 1]["nm"]
-                        for jj, i in enumerate(I["ir"]):
-                            inn = il[i - 1]["nm"]
-                            m = base[on][inn] + GARBAGE
-                            rsel = np.array([c - 1 for c in I["so"][kk]])[:, None]
-                            csel = np.array([c - 1 for c in I["si"][jj]])
-                            m[rsel, csel] = base[on][inn][rsel, csel]
-                            an[on][inn] = m
-                    d.analytic = an
-                    res = d.check_jacobian(derr_approx=MODE[meth], step=step, threshold=2.0 ** -I["th"],
+                d = make_discipline(fun, il, ol, I["dfl"])
+                # entries outside the requested blocks / the selected components carry garbage
+                an = {v["nm"]: {w["nm"]: np.full((len(v["cs"]), len(w["cs"])), GARBAGE) for w in il} for v in ol}
+                for kk, o in enumerate(I["orq"]):
+                    on = ol[o - 1]["nm"]
+                    for jj, i in enumerate(I["ir"]):
+                        inn = il[i - 1]["nm"]
+                        m = given[on][inn] + GARBAGE
+                        rsel = np.array([c - 1 for c in I["so"][kk]])[:, None]
+                        csel = np.array([c - 1 for c in I["si"][jj]])
+                        m[rsel, csel] = given[on][inn][rsel, csel]
+                        an[on][inn] = m
+                an = {o: {i: to_rep(m, I["rep"]) for i, m in row.items()} for o, row in an.items()}
+                d.analytic = an
+                thr = 2.0 ** -I["th"]
+                if I["entry"] == "disc":
+                    res = d.check_jacobian(*at, derr_approx=MODE[meth], step=step, threshold=thr,
                                            input_names=ins, output_names=outs, indices=indices)
-                    if bool(res) != bool(verdict):
-                        ck.violation("CheckVerdict", dict(sig, symptom="check_verdict", analytic=which),
-                                     dict(case, impl=bool(res), spec=bool(verdict), threshold=2.0 ** -I["th"],
-                                          analytic=an, spec_approx=want))
-                        break
+                else:
+                    d.linearize(*at, compute_all_jacobians=True)
+                    kw = {"analytic_jacobian": an} if k % 2 else {}
+                    res = DisciplineJacApprox(d, MODE[meth], step=step).check_jacobian(
+                        outs, ins, threshold=thr, indices=indices, **kw)
+                vd = f"{I['ek']}:{bool(out['verdict'])}"
+                verdicts[vd] = verdicts.get(vd, 0) + 1
+                if bool(res) != bool(out["verdict"]):
+                    ck.violation("CheckVerdict", dict(sig, symptom="check_verdict", analytic=I["ek"]),
+                                 dict(case, impl=bool(res), spec=bool(out["verdict"]), threshold=thr,
+                                      analytic={o: {i: (m.toarray() if hasattr(m, "toarray") else m)
+                                                    for i, m in row.items()} for o, row in an.items()},
+                                      spec_approx=want))
         except Exception as ex:  # noqa: BLE001
             import traceback
 
             ck.violation("Runs", dict(sig, exception=type(ex).__name__, msg=exc_class(ex)),
                          dict(case, error=repr(ex), traceback=traceback.format_exc(limit=8)))
+    # vacuity: every dimension was driven, every kind of wrong analytic Jacobian was both refused and (error
+    # outside the selection) accepted by the specification
+    need = ("approx:dk=vals", "approx:dk=sizes", "approx:sf=imag", "linearize:dk=vals", "linearize:dk=sizes",
+            "linearize:how=attr", "linearize:after_another_mode", "check:ek=self", "check:ek=missing",
+            "check:rep=csr,ek=missing", "check:rep=coo,ek=missing,entry=approx", "check:rep=csc,ek=stored",
+            "check:rep=csr,ek=extra,entry=approx", "check:dk=sizes", "check:dk=vals,entry=approx")
+    for v in need:
+        if not variants.get(v):
+            raise MachineryError(f"vacuity: no discipline-level instance of variant {v}")
+    for v in ("exact:True", "exact:False", "self:True", "stored:False", "missing:False", "extra:False",
+              "stored:True", "missing:True", "extra:True"):
+        if not verdicts.get(v):
+            raise MachineryError(f"vacuity: no check_jacobian instance with analytic/verdict {v}")
     ck.extra["disc_instances"] = counts
+    ck.extra["disc_variants"] = variants
+    ck.extra["disc_check_verdicts_of_the_specification"] = verdicts
     ck.extra["disc_parallel_linearize_runs"] = par_runs
